@@ -319,6 +319,7 @@ def alphabet(ab, nsel, thorough):
 
 
 WORK_QUICK, WORK_THOROUGH = 220000, 1400000     # per-listing work allowance (units: KB read), see plan_counts
+WALK_CHUNK = 1000                                  # triples (index=i; a; b) done on one object before a new one is opened
 UNIT_PER_MS = 35          # calibration of the work unit below: ~35 units per millisecond of one core
 
 
@@ -376,7 +377,8 @@ def gen_sequences_planned(ab, ops, rng, plan):
         rng.shuffle(pairs)
         for a, b in pairs[:plan.get('pairs_per_index', 0)]:
             walk += [('index', i), a, b]
-    if walk: seqs.append(walk); kinds.append('chained-pairs')
+    for c in range(0, len(walk), 3 * WALK_CHUNK):          # one object per WALK_CHUNK triples
+        seqs.append(walk[c:c + 3 * WALK_CHUNK]); kinds.append('chained-pairs')
     complete['pairs'] = (min(len(pairs), plan.get('pairs_per_index', 0)) * ab.n, len(pairs) * ab.n)
     return seqs, kinds, complete
 
@@ -394,6 +396,23 @@ def check_nearest(vals, v, sel, exact):
     m = min(d)
     if exact: return d[sel] == m
     return d[sel] <= m * (1 + Fraction(1, 2 ** 50))
+
+
+class Hang(BaseException):
+    """raised by the SIGALRM guard: one navigation action did not return (BaseException so that the
+    `except Exception` around an action does not swallow it)"""
+
+
+GUARD_S = 45          # wall-clock guard for ONE action / one open (normally milliseconds); only ever ends a hang
+
+
+def _on_alarm(signum, frame): raise Hang()
+
+
+def guard(seconds):
+    import signal
+    if seconds: signal.signal(signal.SIGALRM, _on_alarm)
+    signal.alarm(int(seconds))
 
 
 def probe_positions(path, skip):
@@ -423,7 +442,15 @@ def run_job(pl):
     skip = pl.get('skip_tables')
     rng = random.Random(pl['seed'])
     res = {'label': label, 'inp': pl['inp'], 'failures': [], 'skipped': None}
-    bad_pos = probe_positions(path, skip)
+    try:
+        guard(GUARD_S * 4)
+        bad_pos = probe_positions(path, skip)
+        guard(0)
+    except Hang:
+        res['failures'].append({'key': 'nav:hang', 'input': dict(pl['inp'], ops=[['last']]), 'observed': 'opening the listing and positioning at each index in turn did not finish within %d s' % (GUARD_S * 4),
+                                'required': 'every navigation action returns'})
+        res['skipped'] = 'hang while positioning a fresh listing'
+        return res
     if bad_pos:
         # some result set cannot be positioned at even from a freshly opened listing: report, classified by
         # where the exception comes from, and leave this listing out of the sequence sweep
@@ -434,6 +461,7 @@ def run_job(pl):
                                     'required': 'every full result set can be positioned at'})
         res['skipped'] = 'index=%d raises %s on a freshly opened listing' % (bad_pos[0][0], bad_pos[0][1])
         return res
+    guard(GUARD_S * 8)
     ab = Abstract(path, skip)
     res.update({'sim': ab.sim, 'n': ab.n, 'tables': ab.names, 'family': ab.family,
                 'nonuniform': [(i, nm, un, tot) for (i, nm, un, tot) in ab.nonuniform][:20]})
@@ -454,6 +482,7 @@ def run_job(pl):
     sels = nav_selections(l0, names, ab.sim)
     open_snap = snap(l0, names)
     l0.close()
+    guard(0)
     ops = alphabet(ab, len(sels), pl['thorough'])
     size = os.path.getsize(path)
     plan = None
@@ -497,7 +526,14 @@ def run_job(pl):
         line = []
         for k, op in enumerate(seq):
             before = int(lst.index)
-            out = apply_op(lst, op, sels)
+            try:
+                guard(GUARD_S)
+                out = apply_op(lst, op, sels)
+                guard(0)
+            except Hang:
+                fail('nav:hang', seq, k, '%s did not return within %d s (at index %d)' % (op[0], GUARD_S, before), 'every navigation action returns')
+                res['skipped'] = 'hang in %s' % op[0]
+                return res
             nops += 1
             opkinds[op[0]] = opkinds.get(op[0], 0) + 1
             line.append(obs_str(out, lst))
@@ -803,7 +839,7 @@ def run(ctx):
         info = call_worker(ctx, {'fn': 'info_job', 'files': files}, 600)
         ctx.extra['files'] = {'shipped': len(files), 'with_2_or_more_times': sum(1 for d in info.values() if d.get('n', 0) >= 2),
                               'unreadable': {k: v['error'] for k, v in info.items() if 'error' in v}}
-        timeout = 3600 if ctx.thorough else 900          # guard against a hang only; the work is bounded by counts
+        timeout = 3600 if ctx.thorough else 900          # guard against a hang of a whole worker only (single actions have their own guard); the work is bounded by counts
         jobs = plan_jobs(ctx, info, tmpdir)
         ctx.log('%d listings (files, truncated copies, skip variants); sequence counts per listing from plan_counts (file size, result sets, alphabet; no clock)' % len(jobs))
         for j in jobs: j['want_ops'] = True
